@@ -14,6 +14,7 @@ type c01Reducer struct {
 	test   func(c *c01Case) bool // does the candidate still show the same failure?
 	budget int                   // remaining test runs
 	par    int
+	coarse bool // stop after the argv and file-by-file steps
 	mu     sync.Mutex
 }
 
@@ -165,6 +166,9 @@ func (rd *c01Reducer) reduce(c *c01Case) *c01Case {
 			}
 			paths = rest
 		}
+	}
+	if rd.coarse {
+		return c
 	}
 	// 3. + 4. contents of the files that are not the unchanged base fixture
 	for _, e := range c.Spec.Entries {
